@@ -88,19 +88,20 @@ pub fn same_as_fresh(state: [u8; 1029], has_run: bool, msg: &Message) {
     kani::cover!(oka);
 }
 
-/// A fresh builder whose first build fails AFTER the message number was already written into the
-/// buffer (an MSM value with satellite id 0 is refused by the data-segment encoder): the next call must
-/// still start clean, i.e. the used-flag is up (or the buffer untouched). Fully concrete message.
+/// A fresh builder whose first build fails AFTER bits were already written into the buffer (a 1230
+/// value with an unrecognised GLONASS signal is refused by the bias-list encoder after the message
+/// number, the station id and the indicator were written): the next call must still start clean, i.e.
+/// the used-flag is up (or the buffer untouched). Fully concrete message (a small type: the MSM
+/// variant of this harness needed 9-13 min, over the 900 s budget of a quick check).
 #[kani::proof]
 #[kani::unwind(1031)]
 pub fn inv_fail_after_write() {
-    use rtcm_rs::msg::{Msg1071Data, Msg1071Sig, Msg1071T, Msm123Sat};
+    use rtcm_rs::msg::{GloSigId, Msg1230CodePhaseBias, Msg1230T};
     use rtcm_rs::util::DataVec;
-    let mut sats = DataVec::<Msm123Sat, 64>::new();
-    sats.push(Msm123Sat { satellite_id: 0, ..Default::default() });
-    let sigs = DataVec::<Msg1071Sig, 64>::new();
-    let m = Msg1071T { data_segment: Msg1071Data { satellite_data: sats, signal_data: sigs }, ..Default::default() };
-    let msg = Message::Msg1071(m);
+    let mut v = DataVec::<Msg1230CodePhaseBias, 4>::new();
+    v.push(Msg1230CodePhaseBias { signal_id: GloSigId::new(9, 'Z'), bias_m: 0.0 });
+    let m = Msg1230T { reference_station_id: 0xABC, glo_code_phase_bias_ind: 1, glo_code_phase_biases: v };
+    let msg = Message::Msg1230(m);
     let mut b = MessageBuilder::new();
     let r = b.build_message(&msg);
     assert!(r.is_err());
